@@ -56,6 +56,13 @@ def digestSlots (out : String) : List (String × List (Nat × Nat)) :=
       | _ => none
     else none
 
+/-- status-server mode of a server as shown in the implementation's digest -/
+def digestSS (out : String) (name : String) : Option Nat :=
+  (sections out).findSome? fun sec =>
+    if sec.startsWith ("S:" ++ name ++ " ") then
+      ((sec.splitOn " ").find? (·.startsWith "ss=")).bind fun t => (t.drop 3).toString.toNat?
+    else none
+
 def cliConfOf (m : Mon) (k : Nat) : Option World.CliConf :=
   (m.clientConf[k]?).bind fun n => m.cfg.clis.find? (·.name = strBytes n)
 
@@ -126,7 +133,13 @@ def monOp (m : Mon) (op : String) (args : List String) (impl : List String) : Mo
               (match srvConfOf m s with
                | none => "bad C01:forwarded-to-unknown-server"
                | some sc =>
-                 if !requestOk H sc.secret b then "bad C06:forwarded-request-malformed-or-unauthenticated"
+                 if (fwdToks.any fun (s', sl, b') => sl = 0 && codeOf b' != 12 && (digestSS out s').getD 0 != 0) then
+                   "bad C11:identifier-0-used-by-a-request-while-status-server-is-enabled"
+                 else if (fwdToks.any fun (_, sl, b') => (idOf b').toNat != sl) then "bad C11:packet-identifier-differs-from-its-slot"
+                 else if (fwdToks.any fun (s', sl, _) => m.fwds.any fun f => f.srv = s' && f.slot = sl &&
+                            ((m.slots.find? (·.1 = s')).any fun e => e.2.any (·.1 = sl)) && !(f.client = k && idOf f.rq == idOf pkt)) then
+                   "bad C11:identifier-of-an-outstanding-request-reused"
+                 else if !requestOk H sc.secret b then "bad C06:forwarded-request-malformed-or-unauthenticated"
                  else if codeOf b != codeOf pkt then "bad C01:code-changed"
                  else if !frameOk m cc sc pkt b then "bad C01:untouched-attributes-not-preserved"
                  else "ok")
